@@ -347,6 +347,16 @@ fn main() {
                     GProp { exp: 'a', tbl: tbl_far.iter().map(|b| !*b).collect() },
                 ], panic_at: None };
                 let reach = g.reach();
+                // EXACT correspondence across 1500-job block boundaries (short paths only, so that the visit log stays small;
+                // on-demand is exact only while <= 1500 jobs are pending, so it is left to the harness-side oracle here)
+                if rep == 0 && (shape == "star" || shape == "many-init" || shape == "wide-tree") && (prop == "c01" || prop == "c13" || prop == "c12") {
+                    for strat in ["bfs", "dfs"] {
+                        let cfg = if prop == "c12" { Cfg { max_depth: None, target: Some(1600 + r.below(1500)), finish: "all".into() } } else { Cfg::plain() };
+                        let obs = observe(&g, strat, &cfg);
+                        out.m(&format!("chk {} {} {} {}", strat, g.graph_sx(), g.props_sx(), cfg.sx()), &obs);
+                        out.stat("big-exact-correspondence-runs");
+                    }
+                }
                 for strat in strategies {
                     let visits: Arc<Mutex<Vec<Vec<u16>>>> = Arc::new(Mutex::new(vec![]));
                     let v2 = visits.clone();
